@@ -8,6 +8,7 @@ from props.C03 import PV, KIND, PUT, STORE_FNS, VKE, param_seeds, field_read_see
 from props.C12 import chunk_rules
 
 META = {
+    "explanation_more": 'Also (round 4): in every arm that processes a payment the presented key is compared before the payment is looked at (C04.arm.vsr.*.pay: a wrongly keyed record is rejected with nothing changed).',
     "explanation": "Decides: (1) the four typed store functions are the only callers of put_local_record; (2) in each, the `key` of the "
                    "persisted Record is the result of NetworkAddress::to_record_key on an address taken from the deserialised content, or "
                    "(transactions) a parameter that a per-element filter (filter/retain closure whose verdict is the comparison, or a loop whose push is cut by it on every iteration) compares with such a key for every element kept; the scratchpad store is "
